@@ -189,6 +189,12 @@ def build_rpc():
     return bins['rpc']
 
 
+def build_thread():
+    flags = ['-std=c++17', '-O1', '-g1', '-fsanitize=thread']
+    bins = build_binaries('thread', [os.path.join(HARNESS, 'thread_main.cpp')], [('thread', [])], flags=flags)
+    return bins['thread']
+
+
 def build_util():
     units = [('util', [])]
     flags = SAN_FLAGS + ['-fno-sanitize=shift-base']
